@@ -529,6 +529,9 @@ func (x *Exec) contractCall(st *State, pos ast.Node, spec *UnitSpec, sig *types.
 		}
 	}
 	for _, c := range spec.clauses("ensures") {
+		if strings.HasPrefix(c.Name, "local:") {
+			continue // exit obligation over the callee's locals: not part of its caller-visible contract
+		}
 		st.assume(x.cxBoolIn(st, c.Expr, pre, binds, nil))
 	}
 	for _, r := range results {
